@@ -364,6 +364,45 @@ func replayDHCP(kind string, a []string) string {
 
 func (g gen) dnsName() string {
 	r := g.rng
+	if r.Chance(15) { // names dnsmessage refuses, the root, and the length limits 254 / 255 / 256
+		long := func(n int) string { // n bytes: 50-byte labels, ends with a dot
+			s := ""
+			for len(s) < n {
+				l := n - len(s) - 1
+				if l > 50 {
+					l = 50
+				}
+				s += strings.Repeat("x", l) + "."
+			}
+			return s
+		}
+		switch r.Intn(12) {
+		case 0:
+			return ""
+		case 1:
+			return "."
+		case 2:
+			return "nodot.local"
+		case 3:
+			return "a..local."
+		case 4:
+			return ".local."
+		case 5:
+			return strings.Repeat("y", 64) + ".local."
+		case 6:
+			return strings.Repeat("y", 63) + ".local."
+		case 7:
+			return long(254)
+		case 8:
+			return long(255)
+		case 9:
+			return long(256)
+		case 10:
+			return long(300)
+		case 11:
+			return ".."
+		}
+	}
 	const al = "abcdefghijklmnopqrstuvwxyz0123456789-_"
 	n := 1 + r.Intn(4)
 	s := ""
@@ -385,7 +424,7 @@ func (g gen) dnsName() string {
 func (g gen) nbName() string {
 	r := g.rng
 	const al = "ABCDEFGHIJKLMNOPQRSTUVWXYZ0123456789-_ *$"
-	l := r.Pick(0, 1, 5, 15, 16, r.Intn(17))
+	l := r.Pick(0, 1, 5, 15, 16, r.Intn(17), 17, 18+r.Intn(30))
 	s := ""
 	for j := 0; j < l; j++ {
 		s += string(al[r.Intn(len(al))])
@@ -570,7 +609,9 @@ func doLate(r *lib.Run, kind string, c nicCfg, pre []string, derive func(f []byt
 	probe := append(append(c.toks(), pre...), "0", "0", "0", "0", "0", "0")
 	obs := r.Exec(kind, probe)
 	if obs == "none" || obs == "panic" || strings.Contains(obs, ",") {
-		r.Case(kind, probe, obs)
+		r.Case(kind, append(c.toks(), pre...), obs) // refused (or worse): the arguments as given
+		oracle(r, kind, c, pre, obs)
+		r.Stat("class."+kind+".refused", 1)
 		return
 	}
 	args := derive(lib.UnHex(obs))
